@@ -62,7 +62,7 @@ theorem C22_own_values (cfg : Cfg) (progs : List (List Req)) (sched : List Nat) 
   ((C22_run_inv cfg sched _ (C22_init cfg progs h)).1.2 t).2.1 (r, tr) hu
 
 /-- the pinned values of a translator taken from the cache equal the thread's own raw parameter values -/
-theorem C22_cached_agrees (cfg : Cfg) (vars : Vars) (tr : Translator) (h : compare vars tr.pinned = .same)
+theorem C22_cached_agrees (vars : Vars) (tr : Translator) (h : compare vars tr.pinned = .same)
     (p : PKey) (v : Val) (hp : (p, v) ∈ tr.pinned) : lookup p vars = some v :=
   (compare_same_iff vars tr.pinned).1 h (p, v) hp
 
@@ -90,7 +90,8 @@ theorem C22_program_kept (cfg : Cfg) (progs : List (List Req)) (h : WFProgs cfg 
       by_cases ht : t = t0
       · subst ht; simpa [step, stepG, updTh] using hk
       · simp [step, stepG, updTh, ht]
-    simpa [run, runG, step, this] using e
+    have e' := e.trans this
+    simpa [run, runG, step] using e'
 
 /-- **same results as alone**: when a thread has finished its program, the translators of its query objects are, in
     order, those of its program evaluated without any cache and without any other thread -/
